@@ -322,7 +322,7 @@ def main(argv=None):
         seen.add(h)
         # every witness is a solver model; only replayed ones are ever reported. Replay a bounded, label-diverse selection.
         k = per_label.get(v["label"], 0)
-        if len(todo) >= cap_total or k >= 6:
+        if len(todo) >= cap_total or k >= int(os.environ.get("VERIF_MAX_REPLAYS_PER_LABEL", "6")):
             not_replayed += 1
             continue
         per_label[v["label"]] = k + 1
